@@ -145,10 +145,13 @@ CLAIMED = {
             "L^-T) and with or without a precomputed inverse Cholesky factor, the rows of the returned array satisfy the generalised "
             "eigen-equation in matrix form G(t) V = G(t0) V Lambda with Lambda the eigenvalues in DESCENDING order (state 0 = largest), for "
             "symmetric positive definite G(t0); any dimension (the ring is abstract). Corr.prune: every entry of the pruned matrix is "
-            "(v_i, G(t) v_j) for ALL i, j (no symmetry assumed; T in {1, 2}, Ntrunc = 2 unrolled).",
+            "(v_i, G(t) v_j) for ALL i, j (no symmetry assumed; T in {1, 2}, Ntrunc = 2 unrolled). Corr.GEVP (sort by eigenvalue; T = 4, N = 3, t0 in "
+            "{0, 1}, patterns of undefined timeslices enumerated): the result is arranged [state][time]; entries are undefined exactly for "
+            "t <= t0 and for undefined timeslices, and otherwise row `state` of the solver applied to (central values of G(t), central values "
+            "of G(t0)).",
             "DESIGN.md section 6 C16",
             "Assumed: numpy / scipy return eigenvalues in ascending order and satisfy the defining equations of the decompositions. NOT "
-            "decided: Corr.GEVP's time-slice plumbing (t0, ts, sort modes, None timeslices), _sort_vectors, Eigenvalue / projected, "
+            "decided: Corr.GEVP with sort=None / sort='Eigenvector' (_sort_vectors), the symmetrisation branch, Eigenvalue / projected, "
             "the Obs-valued branch, exact-exponential spectra, matrix_pencil_method (numerical statements outside the reach of contracts)."),
     "C17": ("symbolic execution of the configuration-selection statements of read_rwms (statement slice, filter / map summaries, ghost induction) and of check_idl + z3; native execution of the same slice",
             "Proof for read_rwms (one replica, one factor; lengths, configuration numbers, r_start / r_stop / r_step symbolic): the stored "
